@@ -31,6 +31,7 @@ func main() {
 	}
 	r := vf.NewRunner(*prop, *tier, *seed, *batch, *nbatch, *journal)
 	r.Replay = *replay
+	r.Abandoned = props.AbandonedWork
 	if p := os.Getenv("VERIF_CPUPROFILE"); p != "" {
 		f, _ := os.Create(p)
 		pprof.StartCPUProfile(f)
